@@ -533,6 +533,19 @@ struct Row {
     /// direct API: (normal mode result, anchors-only mode result, expected normal ok, expected anchors-only ok)
     api: Option<(String, String, bool, bool)>,
     witness: Value,
+    asset: Arc<Vec<u8>>,
+}
+
+impl Row {
+    /// witness plus the signed asset itself (only materialised when a violation is written)
+    fn wit(&self) -> Value {
+        use base64::Engine;
+        let mut w = self.witness.clone();
+        if let Some(m) = w.as_object_mut() {
+            m.insert("signed_asset_png_b64".into(), json!(base64::engine::general_purpose::STANDARD.encode(self.asset.as_slice())));
+        }
+        w
+    }
 }
 
 struct ChainResult {
@@ -555,7 +568,7 @@ fn eval_chain(p: &ChainParams, asset: &assets::Asset) -> ChainResult {
     x5.extend(c.x5rest.iter().cloned());
     let signer = DirectCoseSigner::new(c.ee_key.clone(), x5.clone());
     let signed = match report::catch_sdk(|| sign_asset(&signer, asset.format, &asset.bytes)) {
-        Ok(Ok(s)) => s,
+        Ok(Ok(s)) => Arc::new(s),
         Ok(Err(e)) => {
             out.inconclusive.push(format!("chain {} could not be embedded: {e}", p.idx));
             return out;
@@ -697,6 +710,7 @@ fn eval_chain(p: &ChainParams, asset: &assets::Asset) -> ChainResult {
             failures: o.failure_codes(),
             api,
             witness,
+            asset: signed.clone(),
         });
     }
     out
@@ -789,132 +803,136 @@ fn main() {
         }
         run.count("openssl_cli_calls", r.cli_calls);
         for row in r.rows {
-            run.eval();
-            let depth = row.chain_class.split('|').next().unwrap_or("").to_string();
-            let sc = settings_class(&row.setting);
-            let observed = format!(
-                "{}{}{}",
-                row.state,
-                if row.has_trusted { "+T" } else { "" },
-                if row.has_untrusted { "+U" } else { "" }
-            );
-            if debug {
-                println!(
-                    "{:24} {:26} {:22} {:44} expect={:?} cli={}/{} eku={} -> {} api={:?} {}",
-                    row.chain_class, row.shape, row.eku, row.setting, row.expect_trusted, row.cli_ok_now, row.cli_ok_ignoring_time, row.eku_accepted, observed, row.api, row.cli_detail
-                );
-            }
-            if row.state == "Panic" {
-                run.violation(&format!("panic|{}|{}", row.shape, sc), "SDK panicked while validating", row.witness.clone());
-                continue;
-            }
-            if row.state == "Err" {
-                run.inconclusive(format!("reader error {:?} for chain shape {} settings {}", row.error, row.shape, row.setting));
-                continue;
-            }
-            *table.entry(format!("{}|{}|expect={:?}|{}", row.shape, sc, row.expect_trusted, observed)).or_insert(0) += 1;
-            let Some(expect) = row.expect_trusted else {
-                run.count(&format!("unjudged:{}:{}", row.shape, observed), 1);
-                run.sample("unjudged", 2, json!({"why": row.unjudged_why, "case": row.witness}));
-                continue;
-            };
-            run.nontrivial(format!("{}|{}|{}|{}|expect={}|{}", row.shape, depth, row.eku, sc, expect, observed));
-            run.sample(&format!("{}|{}", row.shape, if expect { "trusted" } else { "untrusted" }), 1, row.witness.clone());
-            let eku_class = if row.eku_accepted { "eku-accepted" } else { "eku-unaccepted" };
-            // cause class: *why* the reference says what it says, not which case it was
-            let chain_class = if row.on_allow {
-                "on-allow-list".to_string()
-            } else if row.cli_ok_now {
-                "chain-ok".to_string()
-            } else if row.cli_ok_ignoring_time {
-                "ca-validity-window".to_string()
-            } else if row.cli_detail == "no anchors" {
-                "no-anchors".to_string()
-            } else {
-                row.shape.clone()
-            };
-            let sig_base = format!("{}|{}|{}", chain_class, eku_class, mechanism(&sc));
-
-            if !row.verify_trust {
-                // no trust verdict at all
-                if row.has_trusted || row.has_untrusted || row.state == "Trusted" {
-                    run.violation(
-                        &format!("{sig_base}|no-verdict→{observed}"),
-                        "trust verdict issued although verify.verify_trust=false",
-                        row.witness.clone(),
-                    );
-                }
-                continue;
-            }
-            if expect {
-                if !row.has_trusted || row.has_untrusted {
-                    run.violation(
-                        &format!("{sig_base}|trusted→{observed}"),
-                        "reference policy accepts the credential but it was not reported trusted",
-                        row.witness.clone(),
-                    );
-                } else if row.ee_profile_ok && row.state != "Trusted" {
-                    run.violation(
-                        &format!("{sig_base}|trusted→state-{}", row.state),
-                        "credential reported trusted and conforming, but the validation state is not Trusted",
-                        row.witness.clone(),
-                    );
-                }
-            } else {
-                if row.state == "Trusted" {
-                    run.violation(
-                        &format!("{sig_base}|untrusted→state-Trusted"),
-                        "reference policy rejects the credential but the manifest was reported Trusted",
-                        row.witness.clone(),
-                    );
-                } else if row.has_trusted {
-                    run.violation(
-                        &format!("{sig_base}|untrusted→code-trusted({})", row.state),
-                        "reference policy rejects the credential but signingCredential.trusted was reported",
-                        row.witness.clone(),
-                    );
-                } else if !row.has_untrusted {
-                    run.violation(
-                        &format!("{sig_base}|untrusted→no-verdict({})", row.state),
-                        "reference policy rejects the credential but signingCredential.untrusted was not reported",
-                        row.witness.clone(),
-                    );
-                }
-            }
-            // policy API
-            if let Some((normal, only, exp_normal, exp_only)) = &row.api {
-                run.count("policy_api_evaluations", 2);
-                if normal.starts_with("Panic") || only.starts_with("Panic") {
-                    run.violation(&format!("api-panic|{}|{}", row.shape, sc), "CertificateTrustPolicy::check_certificate_trust panicked", row.witness.clone());
-                    continue;
-                }
-                run.nontrivial(format!("api|{}|{}|{}|normal={}|only={}", row.shape, depth, sc, short(normal), short(only)));
-                if only.starts_with("Ok(User") {
-                    run.violation(
-                        &format!("api|anchors-only→User|{}", mechanism(&sc)),
-                        "trust-anchors-only mode accepted a user anchor",
-                        row.witness.clone(),
-                    );
-                } else if only.starts_with("Ok") != *exp_only {
-                    run.violation(
-                        &format!("api|anchors-only|{}|{}|{}→{}", chain_class, mechanism(&sc), exp_only, short(only)),
-                        "trust-anchors-only mode: result differs from the reference over the system anchors alone",
-                        row.witness.clone(),
-                    );
-                }
-                if normal.starts_with("Ok") != *exp_normal {
-                    run.violation(
-                        &format!("api|normal|{}|{}|{}→{}", chain_class, mechanism(&sc), exp_normal, short(normal)),
-                        "check_certificate_trust differs from the reference chain verdict",
-                        row.witness.clone(),
-                    );
-                }
-            }
+            judge(&mut run, &mut table, &row, debug);
         }
     }
     run.set("outcome_table", json!(table));
     let min = if run.quick() { 300 } else { 800 };
     run.finish(min);
+}
+
+fn judge(run: &mut Run, table: &mut BTreeMap<String, u64>, row: &Row, debug: bool) {
+    run.eval();
+    let depth = row.chain_class.split('|').next().unwrap_or("").to_string();
+    let sc = settings_class(&row.setting);
+    let observed = format!(
+        "{}{}{}",
+        row.state,
+        if row.has_trusted { "+T" } else { "" },
+        if row.has_untrusted { "+U" } else { "" }
+    );
+    if debug {
+        println!(
+            "{:24} {:26} {:22} {:44} expect={:?} cli={}/{} eku={} -> {} api={:?} {}",
+            row.chain_class, row.shape, row.eku, row.setting, row.expect_trusted, row.cli_ok_now, row.cli_ok_ignoring_time, row.eku_accepted, observed, row.api, row.cli_detail
+        );
+    }
+    if row.state == "Panic" {
+        run.violation(&format!("panic|{}|{}", row.shape, sc), "SDK panicked while validating", row.wit());
+        return;
+    }
+    if row.state == "Err" {
+        run.inconclusive(format!("reader error {:?} for chain shape {} settings {}", row.error, row.shape, row.setting));
+        return;
+    }
+    *table.entry(format!("{}|{}|expect={:?}|{}", row.shape, sc, row.expect_trusted, observed)).or_insert(0) += 1;
+    let Some(expect) = row.expect_trusted else {
+        run.count(&format!("unjudged:{}:{}", row.shape, observed), 1);
+        run.sample("unjudged", 2, json!({"why": row.unjudged_why, "case": row.witness}));
+        return;
+    };
+    run.nontrivial(format!("{}|{}|{}|{}|expect={}|{}", row.shape, depth, row.eku, sc, expect, observed));
+    run.sample(&format!("{}|{}", row.shape, if expect { "trusted" } else { "untrusted" }), 1, row.wit());
+    let eku_class = if row.eku_accepted { "eku-accepted" } else { "eku-unaccepted" };
+    // cause class: *why* the reference says what it says, not which case it was
+    let chain_class = if row.on_allow {
+        "on-allow-list".to_string()
+    } else if row.cli_ok_now {
+        "chain-ok".to_string()
+    } else if row.cli_ok_ignoring_time {
+        "ca-validity-window".to_string()
+    } else if row.cli_detail == "no anchors" {
+        "no-anchors".to_string()
+    } else {
+        row.shape.clone()
+    };
+    let sig_base = format!("{}|{}|{}", chain_class, eku_class, mechanism(&sc));
+
+    if !row.verify_trust {
+        // no trust verdict at all
+        if row.has_trusted || row.has_untrusted || row.state == "Trusted" {
+            run.violation(
+                &format!("{sig_base}|no-verdict->{observed}"),
+                "trust verdict issued although verify.verify_trust=false",
+                row.wit(),
+            );
+        }
+        return;
+    }
+    if expect {
+        if !row.has_trusted || row.has_untrusted {
+            run.violation(
+                &format!("{sig_base}|trusted->{observed}"),
+                "reference policy accepts the credential but it was not reported trusted",
+                row.wit(),
+            );
+        } else if row.ee_profile_ok && row.state != "Trusted" {
+            run.violation(
+                &format!("{sig_base}|trusted->state-{}", row.state),
+                "credential reported trusted and conforming, but the validation state is not Trusted",
+                row.wit(),
+            );
+        }
+    } else {
+        if row.state == "Trusted" {
+            run.violation(
+                &format!("{sig_base}|untrusted->state-Trusted"),
+                "reference policy rejects the credential but the manifest was reported Trusted",
+                row.wit(),
+            );
+        } else if row.has_trusted {
+            run.violation(
+                &format!("{sig_base}|untrusted->code-trusted({})", row.state),
+                "reference policy rejects the credential but signingCredential.trusted was reported",
+                row.wit(),
+            );
+        } else if !row.has_untrusted {
+            run.violation(
+                &format!("{sig_base}|untrusted->no-verdict({})", row.state),
+                "reference policy rejects the credential but signingCredential.untrusted was not reported",
+                row.wit(),
+            );
+        }
+    }
+    // policy API
+    if let Some((normal, only, exp_normal, exp_only)) = &row.api {
+        run.count("policy_api_evaluations", 2);
+        if normal.starts_with("Panic") || only.starts_with("Panic") {
+            run.violation(&format!("api-panic|{}|{}", row.shape, sc), "CertificateTrustPolicy::check_certificate_trust panicked", row.wit());
+            return;
+        }
+        run.nontrivial(format!("api|{}|{}|{}|normal={}|only={}", row.shape, depth, sc, short(normal), short(only)));
+        if only.starts_with("Ok(User") {
+            run.violation(
+                &format!("api|anchors-only->User|{}", mechanism(&sc)),
+                "trust-anchors-only mode accepted a user anchor",
+                row.wit(),
+            );
+        } else if only.starts_with("Ok") != *exp_only {
+            run.violation(
+                &format!("api|anchors-only|{}|{}|{}->{}", chain_class, mechanism(&sc), exp_only, short(only)),
+                "trust-anchors-only mode: result differs from the reference over the system anchors alone",
+                row.wit(),
+            );
+        }
+        if normal.starts_with("Ok") != *exp_normal {
+            run.violation(
+                &format!("api|normal|{}|{}|{}->{}", chain_class, mechanism(&sc), exp_normal, short(normal)),
+                "check_certificate_trust differs from the reference chain verdict",
+                row.wit(),
+            );
+        }
+    }
 }
 
 /// coarse settings mechanism for signatures
